@@ -363,6 +363,15 @@ def eval_accept(case: dict) -> dict:
             out['bystander_delivered'] = len([d for d in delivered if by and d[0] == id(by[0])]) - n0
             out['listening_ok'] = all(lc is None or lc.state == ConnectionState.CONNECTED for lc in net.listening_connections)
             out['loop_exc'] = list(loop.exceptions)
+            if conn is not None and not case['then_eof'] and case['first'] in ('truncated', 'lying-length', 'nothing'):
+                # a first frame that never completes, no EOF: the accepted connection must not stay around for ever —
+                # the read time-out (whatever deadline the code uses for the first frame) closes it
+                limit = max(float(conn.read_timeout or 0), 1.0)
+                await simloop.advance(limit + 5)
+                await simloop.settle()
+                out['late'] = {'waited': limit + 5, 'state': conn.state.name, 'registered': conn in net.peer_connections,
+                               'remote_sees_eof': h_r.at_eof(),
+                               'closes': [r for cid, st, r in states if cid == id(conn) and st == 'CLOSED']}
             await net.disconnect()
         finally:
             fn.uninstall()
@@ -398,13 +407,13 @@ def accept_case(rng: random.Random, table: list, m, p) -> dict:
     elif kind == 'truncated':
         f = m.PeerInit.Request('someone', 'P', 5).serialize()
         frame = f[:rng.randrange(1, len(f))]
-        then_eof = True
+        then_eof = rng.random() < 0.5          # without EOF: the peer goes silent in the middle of its first frame
     elif kind == 'lying-length':
-        frame = struct.pack('<I', rng.choice([1 << 20, 0xFFFFFFFF])) + b'\x01abc'
-        then_eof = True
+        frame = struct.pack('<I', rng.choice([1 << 20, 0xFFFFFFFF, 300, (1 << 18) + 1])) + b'\x01abc'
+        then_eof = rng.random() < 0.5
     else:
         frame = b''
-        then_eof = True
+        then_eof = rng.random() < 0.5          # connects and never sends anything
     if obf and frame:
         from aioslsk.protocol import obfuscation
         wire = obfuscation.encode(frame, bytes(rng.randrange(256) for _ in range(4)))
@@ -738,6 +747,13 @@ class C02(Property):
                                                 case, observed=o))
             if o['loop_exc']:
                 res.violations.append(Violation('C02-loop-exception', 'exception reached the loop handler', case, observed=o['loop_exc'][:2]))
+            late = o.get('late')
+            if late is not None and (len(late['closes']) != 1 or late['registered'] or not late['remote_sees_eof']):
+                res.violations.append(Violation(
+                    'C02-first-frame-parked', f'accepted connection whose first frame ("{c["first"]}") never completes and that '
+                    f'gets no EOF is still there {late["waited"]:.0f} s later (state {late["state"]}, registered '
+                    f'{late["registered"]}, remote sees EOF {late["remote_sees_eof"]}, CLOSED reported {len(late["closes"])} times)',
+                    case, observed=late, required='closed by the read time-out, unregistered'))
             if len(o.get('closes', [])) > 1:
                 res.violations.append(Violation('C02-close-count', f'CLOSED reported {len(o["closes"])} times', case))
             if dmodel is not None and complete:
@@ -827,6 +843,10 @@ class C02(Property):
             bad = c['first'] in ('undecodable', 'unknown-code', 'garbage-body', 'other-msg', 'pierce-unknown')
             if bad and (not o.get('closes') or o.get('registered') or not o.get('remote_sees_eof')):
                 vs.append(Violation('C02-bad-first-frame-not-closed', 'bad first frame, connection not closed', case, observed=o))
+            late = o.get('late')
+            if late is not None and (len(late['closes']) != 1 or late['registered'] or not late['remote_sees_eof']):
+                vs.append(Violation('C02-first-frame-parked', 'unfinished first frame, no EOF: connection never closed', case,
+                                    observed=late))
             if not o.get('bystander_ok') or o.get('bystander_delivered') != 1:
                 vs.append(Violation('C02-bystander', 'another connection was affected', case, observed=o))
         elif kind == 'client-peer':
